@@ -304,3 +304,17 @@ func badErrClassLeaksLibraryError(b []byte) error {
 	_, err := io.ReadFull(nil, b)
 	return err
 }
+
+// ---------------------------------------------------------------- adversarial reachability ("whenever")
+
+func okWheneverPresent(resp *hdr, v6 bool) {
+	if resp != nil {
+		mark()
+	}
+}
+
+func badWheneverExtraDisjunction(resp *hdr, a, b bool) {
+	if resp != nil && (a || b) {
+		mark()
+	}
+}
